@@ -97,7 +97,7 @@ def FiniteOutcome (T : Ty) (s : Bool) (c d : Nat) (x q : Int) (r : Except Err Bu
     r = .error (.overflow (.exponentOutOfRange 4))
   else match r with
     | .ok b => ∃ n, 0 < n ∧ b = ⟨4 * n, encodeFin ⟨n⟩ s c q⟩ ∧ (Fmt.mk n).fitsB d (some q) = true ∧ b.bits < 2 ^ (32 * n) ∧
-        c < 10 ^ (Fmt.mk n).p ∧
+        c < 10 ^ (Fmt.mk n).p ∧ (∀ cap, T.capN = some cap → n ≤ cap) ∧
         (match T.fixedN with
          | some w => n = w
          | none => need d (some q) ≤ n ∧ n ≤ need d (some q) + 1 ∧ (need d (some q) ≤ 5 → n = need d (some q)))
